@@ -443,7 +443,11 @@ func (d *Discharger) run(name string, hyps []*Term, goal *Term, inputs []InputVa
 				continue
 			}
 			prev = len(cd)
-			r := d.run1(fmt.Sprintf("%s.cone%d", name, depth), cd, goal, inputs, 3, reveal)
+			ct := timeout / 4
+			if ct < 3 {
+				ct = 3
+			}
+			r := d.run1(fmt.Sprintf("%s.cone%d", name, depth), cd, goal, inputs, ct, reveal)
 			if r.status == "unsat" {
 				return r
 			}
